@@ -143,9 +143,25 @@ class Schema:
         for e in self.entities:
             # attribute order as exp2python sees it (ENTITYget_attributes): explicit, then derived, then inverse
             attrs = [a for a in e.attrs if a.kind in "eo"] + [a for a in e.attrs if a.kind == "d"] + [a for a in e.attrs if a.kind == "i"]
-            out.append(f"entity {e.name} {','.join(e.supers) or '-'} " + (",".join(f"{a.name}:{a.kind}" for a in attrs) or "-"))
+            out.append(f"entity {e.name} {','.join(e.supers) or '-'} " + (",".join(f"{a.name}:{a.kind}:{self._aty(a)}" for a in attrs) or "-"))
         out.append("end")
         return out
+
+    def _aty(self, a):
+        """the attribute's declared type as the driver wants it: a simple type name | BOOLEAN | @name | # (aggregate)"""
+        t = a.typ
+        if a.kind in "di" or t is None:
+            return "INTEGER"
+        if " OF " in t:
+            return "#"
+        if t == "BOOLEAN" or t in SIMPLE:
+            return t
+        by = {x.name: x for x in self.types}
+        if t in by and by[t].body[0] == "aggregate":
+            return "#"
+        if t in by and by[t].body[0] == "defined" and self._root_kind(t) == "boolean":
+            return "BOOLEAN"
+        return "@" + t
 
     def _root_kind(self, name):
         by = {x.name: x for x in self.types}
@@ -478,3 +494,45 @@ def gen_diamond_dag(rng, idx):
             c = ent([b])
             ent([ent([c]), ent([c])])                     # a second diamond hanging below the first
     return s
+
+
+def gen_multi_schema(rng, idx):
+    """-> (text, [schema names]): two or three schemas in one file; the later ones REFERENCE / USE types and entities of the
+    earlier ones item by item, rename referenced types and derive entities (also multiply) from referenced entities"""
+    nm = _names(rng, 40)
+    k = 0
+
+    def fresh():
+        nonlocal k
+        k += 1
+        return nm[k - 1]
+    n_s = rng.choice([2, 2, 3])
+    names = [f"ms{idx}_{chr(97 + i)}" for i in range(n_s)]
+    out, exported = [], []           # exported: (schema, kind, name)
+    for si, sn in enumerate(names):
+        lines = [f"SCHEMA {sn};"]
+        local_types, local_ents = [], []
+        if si > 0 and exported:
+            src = rng.choice(names[:si])
+            items = [e for e in exported if e[0] == src]
+            pick = rng.sample(items, rng.randrange(1, len(items) + 1))
+            kw = rng.choice(["REFERENCE", "USE"])
+            lines.append(f"{kw} FROM {src} (" + ", ".join(p[2] for p in pick) + ");")
+            for _, kind, n in pick:
+                (local_types if kind == "t" else local_ents).append(n)
+        for _ in range(rng.randrange(1, 4)):
+            t = fresh()
+            base = rng.choice(sorted(SIMPLE) + local_types) if local_types and rng.random() < 0.6 else rng.choice(sorted(SIMPLE))
+            lines.append(f"TYPE {t} = {base};\nEND_TYPE;")
+            local_types.append(t); exported.append((sn, "t", t))
+        for _ in range(rng.randrange(1, 4)):
+            e = fresh()
+            sup = rng.sample(local_ents, min(len(local_ents), rng.choice([0, 1, 2, 2]))) if local_ents else []
+            lines.append(f"ENTITY {e}" + (f"\n  SUBTYPE OF ({', '.join(sup)})" if sup else "") + ";")
+            if rng.random() < 0.5:
+                lines.append(f"  {fresh()} : {rng.choice(sorted(SIMPLE) + local_types)};")
+            lines.append("END_ENTITY;")
+            local_ents.append(e); exported.append((sn, "e", e))
+        lines.append("END_SCHEMA;\n")
+        out.append("\n".join(lines))
+    return "\n".join(out), names
